@@ -1,5 +1,7 @@
 CONSTANTS
   Dev = {}
+  AnchorForms = {"dnskey"}
+  Cfgs = {"default"}
   MaxRuns = 1
   EntQKinds = {"positive", "nxdomain", "ds"}
   Budget = 2
